@@ -111,18 +111,20 @@ def run_case(case):
             st.flush()
             final["files_after"] = sorted(os.listdir(d))
             final["len_after"] = len(st)
-            # the storage is usable again after flush(): a fresh round by the parent
+            # the storage is usable again after flush(): two fresh rounds by the parent (in the second one the parent is a
+            # process that already was a writer before the flush)
             st.reader_only = False
             again = []
             try:
-                st[1] = "one"
-                st[0] = "zero"
-                again = [len(st), 1 if st.is_contiguous() else 0, st[0], st[1], list(st)]
-                st.close()
-                st.flush()
-                again.append(sorted(os.listdir(d)))
+                for rnd in range(2):
+                    st[1] = "one%d" % rnd
+                    st[0] = "zero%d" % rnd
+                    again.append([len(st), 1 if st.is_contiguous() else 0, st[0], st[1], list(st)])
+                    st.close()
+                    st.flush()
+                    again.append(sorted(os.listdir(d)))
             except Exception as ex:  # noqa
-                again = ["raised", repr(ex)]
+                again.append(["raised", repr(ex)])
             final["again"] = again
         main = sc.run(main_fn)
     finally:
@@ -369,7 +371,7 @@ class P(Prop):
         f = o["final"]
         if f.get("files_after") or f.get("len_after") != 0:
             return "flush left %s, len %s" % (f.get("files_after"), f.get("len_after"))
-        if f.get("again") != [2, 1, "zero", "one", ["zero", "one"], []]:
+        if f.get("again") != [[2, 1, "zero0", "one0", ["zero0", "one0"]], [], [2, 1, "zero1", "one1", ["zero1", "one1"]], []]:
             return "after flush the storage did not behave like a new one: %s" % (f.get("again"),)
         return None
 
@@ -393,7 +395,9 @@ class P(Prop):
 
     def signature(self, case, i, m):
         if isinstance(i, dict) and "events" in i:
-            return self.oracle(case, i) or "correspondence"
+            import re
+            msg = self.oracle(case, i) or "correspondence"
+            return re.sub(r"('[^']*'|\"[^\"]*\"|\d+|\[.*\])", "_", msg)[:80]      # the kind of failure, not its values
         return "harness"
 
     def nontrivial(self, case, o):
